@@ -517,6 +517,7 @@ struct Obs {
     seeks: Vec<(i64, u64)>,
     seeks_at_new: usize,
     file_len: u64,
+    blocked_in: String,
 }
 
 struct FaultSink {
@@ -569,6 +570,7 @@ pub fn run_scenario(s: &Scn) -> Value {
     let rep = Arc::new(Mutex::new(GRep::default()));
     let policy = make_policy(&s.policy, rep.clone());
     let obs = Arc::new(Mutex::new(Obs::default()));
+    let cur_call: Arc<Mutex<String>> = Arc::new(Mutex::new("new".to_string()));
     let panics = s.panic.clone();
     if panics.is_empty() {
         verif_rt::set_fail_points(None);
@@ -601,6 +603,7 @@ pub fn run_scenario(s: &Scn) -> Value {
                 o.st_ok = st_ok;
                 o.st_out = st_out;
             }
+            let cc = cur_call.clone();
             let buf_len = s.unit_len * (s.chunks.len() + 1) + 64;
             let bst = Arc::new(Mutex::new(BudgetState { budget: s.op_budget, ..Default::default() }));
             let bst2 = bst.clone();
@@ -621,6 +624,7 @@ pub fn run_scenario(s: &Scn) -> Value {
                                     break;
                                 }
                             }
+                            *cc.lock().unwrap() = "read".into();
                             match $r.read(&mut buf) {
                                 Ok(0) => {
                                     outcome = "eof".into();
@@ -659,6 +663,7 @@ pub fn run_scenario(s: &Scn) -> Value {
                     match made {
                         Ok(mut r) => {
                             drive!(r, r.member_count() as i64);
+                            *cc.lock().unwrap() = "drop".into();
                             drop(r);
                         }
                         Err(e) => {
@@ -676,6 +681,7 @@ pub fn run_scenario(s: &Scn) -> Value {
                         workers,
                     );
                     drive!(r, r.chunk_count() as i64);
+                    *cc.lock().unwrap() = "drop".into();
                     drop(r);
                 }
                 let mut o = o2.lock().unwrap();
@@ -720,6 +726,7 @@ pub fn run_scenario(s: &Scn) -> Value {
             let sink_buf = Arc::new(Mutex::new(Vec::new()));
             let sb = sink_buf.clone();
             let err_at = s.sink_err_at;
+            let cc = cur_call.clone();
             let r = verif_rt::run(policy, s.max_steps, move || {
                 let sink = FaultSink { buf: sb, calls: 0, err_at };
                 let mut res: Vec<String> = Vec::new();
@@ -729,6 +736,7 @@ pub fn run_scenario(s: &Scn) -> Value {
                     ($w:expr) => {{
                         let mut w = Some($w);
                         for c in &calls {
+                            *cc.lock().unwrap() = c.op.clone();
                             match c.op.as_str() {
                                 "write" => {
                                     let r = w.as_mut().unwrap().write_all(&input2[off..off + c.n]);
@@ -764,6 +772,9 @@ pub fn run_scenario(s: &Scn) -> Value {
                                 _ => break, // drop
                             }
                         }
+                        if w.is_some() {
+                            *cc.lock().unwrap() = "drop".into();
+                        }
                         drop(w);
                     }};
                 }
@@ -792,6 +803,7 @@ pub fn run_scenario(s: &Scn) -> Value {
     };
     verif_rt::set_fail_points(None);
     let g = rep.lock().unwrap().clone();
+    obs.lock().unwrap().blocked_in = cur_call.lock().unwrap().clone();
     let o = obs.lock().unwrap();
     let v = finish_result(s, &expected, report, &g, &o);
     drop(o);
@@ -811,6 +823,7 @@ fn finish_result(s: &Scn, expected: &[Vec<u8>], rp: Report, g: &GRep, o: &Obs) -
         "panicked": rp.panicked, "max_live": rp.max_live_children, "threads": rp.threads, "steps": rp.steps,
         "divergence": g.divergence, "en_mismatch": g.en_mismatch, "used": g.used,
         "main_exited": main_exited, "events": rp.log.len(),
+        "last_call": o.blocked_in,
     });
     let m = v.as_object_mut().unwrap();
     if is_reader {
